@@ -739,6 +739,44 @@ def emit_dispatch(tr, config):
     return '\n'.join(out), sigs
 
 
+def contains_return(stmts):
+    """does some path through `stmts` execute a `return` (nested function definitions excluded)?"""
+    for s in stmts:
+        if isinstance(s, ast.Return):
+            return True
+        if isinstance(s, (ast.FunctionDef, ast.Lambda)):
+            continue
+        for fld in ('body', 'orelse', 'finalbody'):
+            sub = getattr(s, fld, None)
+            if isinstance(sub, list) and sub and isinstance(sub[0], ast.stmt) and contains_return(sub):
+                return True
+        for h in getattr(s, 'handlers', []) or []:
+            if contains_return(h.body):
+                return True
+    return False
+
+
+def inert(stmts):
+    """statements whose omission cannot change a returned value: pass, docstrings, warnings, assignments to plain local names
+    (checked by the caller not to be read later), and if statements made of such"""
+    for s in stmts:
+        if isinstance(s, ast.Pass):
+            continue
+        if isinstance(s, ast.Expr) and isinstance(s.value, ast.Constant):
+            continue
+        if isinstance(s, ast.Expr) and isinstance(s.value, ast.Call) and 'warn' in ast.unparse(s.value.func):
+            continue
+        if isinstance(s, ast.Assign) and all(isinstance(t, ast.Name) or (isinstance(t, ast.Tuple) and all(isinstance(x, ast.Name) for x in t.elts))
+                                             for t in s.targets):
+            continue
+        if isinstance(s, ast.AugAssign) and isinstance(s.target, ast.Name):
+            continue
+        if isinstance(s, ast.If) and inert(s.body) and inert(s.orelse):
+            continue
+        return False
+    return True
+
+
 def angle_params(fn):
     """The parameters of `fn` every read of which is the direct argument of `angular_typecheck(...)`, either everywhere or
     up to an unconditional top-level rebinding `p = <expression reading p only that way>` (after which `p` is a number).
@@ -2136,6 +2174,15 @@ class Env:
             self.vars = dict(saved)
             b1 = self.in_branch(sh['then_nar'], lambda: self.block(list(st.body) + rest, indent + 1, tail))
             return f'{I}{head}\n{b1}\n{I}{mid}\n{b2}'
+        if contains_return(st.body) or contains_return(st.orelse):
+            # a branch that returns on SOME of its paths (e.g. `if a: if b: return …`): every path that does not return
+            # continues with the statements after the `if` — the continuation is translated inside both branches
+            saved = dict(self.vars)
+            b1 = self.in_branch(sh['then_nar'], lambda: self.block(list(st.body) + rest, indent + 1, tail))
+            self.vars = dict(saved)
+            b2 = self.in_branch(sh['else_nar'], lambda: self.block(list(st.orelse) + rest, indent + 1, tail))
+            self.vars = dict(saved)
+            return f'{I}{head}\n{b1}\n{I}{mid}\n{b2}'
         # non-terminal: join the variables assigned in either branch and still needed
         ab, ae = assigned_in(st.body), assigned_in(st.orelse)
         later = self.live_after(rest, tail)
@@ -2165,6 +2212,9 @@ class Env:
                 self.vars = dict(saved)
                 return (f'{I}Except.bind ({head}\n{b1}\n{I}  {mid}\n{b2}) fun (_ : Unit) =>\n'
                         + self.block(rest, indent, tail))
+            if not (inert(st.body) and inert(st.orelse)):
+                self.err(st, 'an if statement that binds nothing read later but does something the model cannot express '
+                             '(only pass, docstrings, warnings and assignments to local names may be left out)')
             return self.block(rest, indent, tail)
         saved = dict(self.vars)
         use_except = self.raising and (self.has_raise(st.body) or self.has_raise(st.orelse))
